@@ -8,7 +8,6 @@ import (
 	"fmt"
 	"strings"
 
-	"github.com/mit-pdos/go-nfsd/nfs"
 	"github.com/mit-pdos/go-nfsd/nfstypes"
 )
 
@@ -292,7 +291,7 @@ func postFH(p nfstypes.Post_op_fh3) []byte {
 }
 
 // Exec performs one NFS request with explicit handle bytes.
-func Exec(srv *nfs.Nfs, o Op, h, h2 []byte) Reply {
+func Exec(srv nfstypes.NFS_PROGRAM_NFS_V3_handler, o Op, h, h2 []byte) Reply {
 	var r Reply
 	switch o.K {
 	case "NULL":
